@@ -8,7 +8,10 @@ namespace PromqlVerif.LTS.Worker
 
 /-- the protocol the code has now (`input`, `output` in the order `worker.New` makes them) -/
 def feat : Features :=
-  { capIn := Gen.workerChanCaps.getD 0 0, capOut := Gen.workerChanCaps.getD 1 0, envCancels := true }
+  { capIn := Gen.workerChanCaps.getD 0 0, capOut := Gen.workerChanCaps.getD 1 0, envCancels := true,
+    -- `Worker.start` sends its result with a plain `w.output <- ..` (regenerated: [plain sends,
+    -- sends that are an arm of a select])
+    sendGivesUp := Gen.workerOutputSends != [1, 0] }
 
 def explored (f : Features) : List Nat := explore (sys f) 400 [(sys f).init] [(sys f).init]
 
@@ -32,6 +35,13 @@ theorem zero_only_after_cancel : ∀ s, Reach (sys feat) s → zeroOnlyAfterCanc
 `Send`, the context is cancelled, the worker exits, the send never completes -/
 theorem deadlock_with_unbuffered_input :
     (explored { feat with capIn := 0 }).all (noDeadlock { feat with capIn := 0 }) = false := by decide +kernel
+
+/-- a worker that gives up its hand-off on cancellation, without closing `output`, leaves a consumer
+that has passed the `ctx.Done()` check of `GetOutput` waiting for ever (the shape of a seeded
+change) -/
+theorem deadlock_when_the_handoff_gives_up :
+    (explored { feat with sendGivesUp := true }).all (noDeadlock { feat with sendGivesUp := true }) = false := by
+  decide +kernel
 
 /-- a batch can contain the zero value of a closed `output`: the consumer passes the `ctx.Done()`
 check of `GetOutput`, the context is cancelled, the worker closes `output` and exits, the receive
